@@ -389,7 +389,8 @@ pub fn connection_start(r: &mut Rng, o: &Opts) -> (Vec<u8>, Structure) {
         // one request in ten carries a pseudo-header no specification defines (extensions do: :protocol), now and
         // then with blanks or a tab at the end or the start of its name
         if r.chance(1, 10) {
-            let name = format!(":{}{}{}", if r.chance(1, 6) { " " } else { "" }, r.pick(&["protocol", "x", "foo-bar", "version"]), r.pick(&["", "", " ", "  ", "\t", "\u{a0}"]));
+            // (the defined names with a doubled or tripled colon, or in another case, are undefined names too)
+            let name = format!(":{}{}{}", if r.chance(1, 6) { " " } else { "" }, r.pick(&["protocol", "x", "foo-bar", "version", ":method", "::path", ":authority", ":scheme", ":status", "Method", "PATH", "method:", ""]), r.pick(&["", "", " ", "  ", "\t", "\u{a0}"]));
             let at = if r.chance(1, 2) { pseudo.len() } else { r.usize_below(pseudo.len() + 1) };
             pseudo.insert(at, (name, "v".to_string()));
         }
